@@ -18,7 +18,7 @@ from srctools.math import Vec
 
 PROP = 'C08'
 LEVEL = 'exploration'
-RUNS = {'quick': 30000, 'thorough': 2000000}
+RUNS = {'quick': 30000, 'thorough': 3500000}
 BATCH = {'quick': 300, 'thorough': 3000}
 BUDGET_S = {'quick': 60.0, 'thorough': 1500.0}
 RULE = ('one run = one seeded history (5-50 steps) over two maps: creation of entities / solids / sides / prisms / visgroups / '
